@@ -37,6 +37,13 @@ def make_text(seed):
     knobs = gen.Knobs(items=r.choice([2, 3, 4]), members=r.choice([3, 5]), ns_depth=r.choice([1, 2]))
     g = gen.WildGen(seed, knobs, typedefs=True, typedef_same_ns=True, param_use=0.3, this_use=0.05, special_names=0.1)
     text = render.render(g.module())
+    if r.random() < 0.5:
+        # several headers, some of them included more than once (any order-by-hash of the include block shows)
+        hs = ['a.h', 'gtsam/geometry/Pose3.h', 'zeta/last.h', 'b/c.h', 'vector', 'my-lib/file_1.h', 'Q.h']
+        r.shuffle(hs)
+        hs = hs[:r.choice([2, 3, 5])]
+        hs = hs + [r.choice(hs)] + ([r.choice(hs)] if r.random() < 0.5 else [])
+        text = ''.join('#include <%s>\n' % h for h in hs) + text
     if r.random() < 0.3:
         # a non-ASCII character in a default value (files are UTF-8 whatever the locale says)
         text += 'void unicode%d(string s = "caf\u00e9 \u6f22");\n' % (seed % 71)
@@ -122,9 +129,13 @@ def check_input(seed, tier, acc, nvar):
                 else:
                     cwd = root
                     cmd = script_cmd(kind, src, out, tpl)
-                runs = 2 if v['populated'] else 1
-                for _ in range(runs):
-                    p = subprocess.run(cmd, cwd=cwd, env=env, stdout=subprocess.PIPE, stderr=subprocess.PIPE, timeout=600)
+                if v['populated']:
+                    # an earlier run that wrote the same output path(s) with another option (serialization flipped:
+                    # same set of files, other content), then the run under test: what is left must be its output
+                    first = cmd + ['--use-boost-serialization'] if r.random() < 0.6 else cmd
+                    subprocess.run(first, cwd=cwd, env=env, stdout=subprocess.PIPE, stderr=subprocess.PIPE, timeout=600)
+                    acc.count('var:earlier_run_other_option' if first is not cmd else 'var:earlier_run_same')
+                p = subprocess.run(cmd, cwd=cwd, env=env, stdout=subprocess.PIPE, stderr=subprocess.PIPE, timeout=600)
                 acc.count('varied_runs')
                 acc.count('var:hashseed=%s' % v['PYTHONHASHSEED'])
                 acc.count('var:locale=%s' % v['LC_ALL'])
